@@ -135,7 +135,29 @@ class Minimal:
         return self._b.tell()
 
 
-STREAM_KINDS = {"bytesio": RecStream, "nonseekable": NonSeekable, "minimal": Minimal}
+class Buffered(io.BufferedReader):
+    """What open(path, 'rb') returns: a BufferedReader (has peek(), read1(), readinto() besides read/readline)."""
+
+    def __init__(self, data: bytes):
+        super().__init__(io.BytesIO(data))
+        self.calls = 0
+        self.horizon = 4 * len(data) + 16
+
+    def _tick(self):
+        self.calls += 1
+        if self.calls > self.horizon:
+            raise Horizon()
+
+    def read(self, n=-1):
+        self._tick()
+        return super().read(n)
+
+    def readline(self, n=-1):
+        self._tick()
+        return super().readline(n)
+
+
+STREAM_KINDS = {"bytesio": RecStream, "nonseekable": NonSeekable, "minimal": Minimal, "buffered": Buffered}
 
 
 class DevStream(RecStream):
@@ -166,6 +188,30 @@ class DevStream(RecStream):
                 self.seek(pos + k)
                 return line[:k]
             return line
+        return super().readline(n)
+
+
+class PauseStream(RecStream):
+    """A stream that is momentarily empty at chosen call indices (a log file being written, a serial port or
+    pipe with nothing pending): that call is answered b"" without consuming anything; later calls continue."""
+
+    def __init__(self, data: bytes, pauses):
+        super().__init__(data)
+        self.pauses = set(pauses)
+        self.paused = 0
+
+    def read(self, n=-1):
+        if self.calls in self.pauses:
+            self.calls += 1
+            self.paused += 1
+            return b""
+        return super().read(n)
+
+    def readline(self, n=-1):
+        if self.calls in self.pauses:
+            self.calls += 1
+            self.paused += 1
+            return b""
         return super().readline(n)
 
 
@@ -245,7 +291,15 @@ def run_reader(data: bytes, cfg: dict, stream=None, max_items=None, use_iter=Fal
     r = Run()
     st = stream if stream is not None else RecStream(data)
     handler = None
-    if cfg.get("handler"):
+    if cfg.get("handler") == "object":
+        # an error handling *object*: callable, and (being an empty collection) falsy until first used
+        class _Collector(list):
+            def __call__(self, err, r=r):
+                self.append(err)
+                r.errors.append(err)
+                r.events.append(("err", len(r.errors) - 1))
+        handler = _Collector()
+    elif cfg.get("handler"):
         def handler(err, r=r):
             r.errors.append(err)
             r.events.append(("err", len(r.errors) - 1))
